@@ -61,7 +61,7 @@ def geometry_spec(draw, kinds=None, simple_lines=False, allow_degenerate=True, f
     else:
         st_ = draw(st.sampled_from(T_SCALES))
         sf = draw(st.sampled_from(F_SCALES))
-        t_off = draw(st.sampled_from([0.0, 0.0, st_ * 0.5, st_ * 3.0, 100.0])) if edges else st_ * 3.0
+        t_off = draw(st.sampled_from([0.0, 0.0, st_ * 0.5, st_ * 3.0, 100.0, 100.0, 4999990.0, 16777216.0])) if edges else st_ * 3.0
         flip = draw(st.integers(0, 3)) == 0 if edges else False  # frequencies measured down from MAX
         f_off = draw(st.sampled_from([0.0, 0.0, sf * 0.5, 1000.0])) if edges else sf * 0.5
         if f_off + 4 * sf > MAXF:
